@@ -213,6 +213,29 @@ func failEdgeNoReturn(e *Env, p *load.Program, rule, key string, call *ssa.Call)
 	}
 	checks := flow.FindErrChecks(errv)
 	if len(checks) == 0 {
+		// handed to a helper that terminates the command unless the error is nil (`check(err)`)
+		if refs := errv.Referrers(); refs != nil {
+			for _, ref := range *refs {
+				if c2, ok := ref.(*ssa.Call); ok && flow.InstrDominates(call, c2) {
+					if next := nextInstr(c2); next != nil && flow.NilAssertedAt(errv, next) {
+						// the helper's own exit must be non-zero
+						if h := flow.Callee(c2); h != nil {
+							g := flow.G(h)
+							for _, b := range h.Blocks {
+								if nr, dead := g.NoRet[b]; dead && g.Live(b) {
+									if bad := zeroExit(nr, 0); bad != nil {
+										r.Bad(rule, key+"/status", p.Pos(bad.Pos()), "the command exits with status 0 after "+calleeName(call)+" failed")
+										return false
+									}
+								}
+							}
+						}
+						r.OK(rule, key, p.Pos(call.Pos()), fmt.Sprintf("failure of %s terminates the command (through %s)", calleeName(call), calleeName(c2)))
+						return true
+					}
+				}
+			}
+		}
 		r.Bad(rule, key, p.Pos(call.Pos()), fmt.Sprintf("the error returned by %s is never compared with nil: the command goes on with a missing or partial result", calleeName(call)))
 		return false
 	}
@@ -252,4 +275,16 @@ func failEdgeNoReturn(e *Env, p *load.Program, rule, key string, call *ssa.Call)
 		r.OK(rule, key, p.Pos(call.Pos()), fmt.Sprintf("failure of %s terminates the command with an error", calleeName(call)))
 	}
 	return ok
+}
+
+
+// nextInstr: the instruction after in, in its block (nil for the last one).
+func nextInstr(in ssa.Instruction) ssa.Instruction {
+	is := in.Block().Instrs
+	for i, x := range is {
+		if x == in && i+1 < len(is) {
+			return is[i+1]
+		}
+	}
+	return nil
 }
